@@ -36,18 +36,23 @@ IsOk(r) == r = "ok"
 EncStep ==
     LET vals == NormSeq(Ev.vals)
         repr == \A i \in 1 .. Len(vals) : Representable(vals[i])
-    IN
-    IF ~IsOk(Ev.res) THEN
-        IF repr THEN Say("ENC", "encoder refused a value the format can express: " \o Ev.res) ELSE TRUE
-    ELSE IF ~repr THEN Say("ENC", "encoder accepted a value the format cannot express (name or string length)")
-    ELSE
-    LET ref == DecAll(Ev.bytes) IN
-    IF ~ref.ok THEN Say("ENC", "encoder output is not a conformant encoding: " \o ref.why)
-    ELSE IF ~SeqEq(ref.vs, vals) THEN Say("ENC", "encoder output denotes a different value")
-    ELSE IF ~IsOk(Ev.dres) THEN Say("RT", "encoded bytes fail to decode: " \o Ev.dres)
-    ELSE IF Ev.dleft # 0 THEN Say("RT", "decoding did not consume all encoded bytes")
-    ELSE IF ~SeqEq(NormSeq(Ev.dvals), vals) THEN Say("RT", "decode(encode(v)) differs from v")
-    ELSE TRUE
+        \* ENC (C12, and the "cannot express" part of C04/C19): judged by the reference decoder
+        encPart ==
+            IF ~IsOk(Ev.res) THEN
+                IF repr THEN Say("ENC", "encoder refused a value the format can express: " \o Ev.res) ELSE TRUE
+            ELSE IF ~repr THEN Say("ENC", "encoder accepted a value the format cannot express (name or string length)")
+            ELSE LET ref == DecAll(Ev.bytes) IN
+                 IF ~ref.ok THEN Say("ENC", "encoder output is not a conformant encoding: " \o ref.why)
+                 ELSE IF ~SeqEq(ref.vs, vals) THEN Say("ENC", "encoder output denotes a different value")
+                 ELSE TRUE
+        \* RT (C04): judged independently of ENC - the library's own decoder on the library's own bytes
+        rtPart ==
+            IF ~IsOk(Ev.res) THEN TRUE
+            ELSE IF ~IsOk(Ev.dres) THEN Say("RT", "encoded bytes fail to decode: " \o Ev.dres)
+            ELSE IF Ev.dleft # 0 THEN Say("RT", "decoding did not consume all encoded bytes")
+            ELSE IF ~SeqEq(NormSeq(Ev.dvals), vals) THEN Say("RT", "decode(encode(v)) differs from v")
+            ELSE TRUE
+    IN encPart /\ rtPart
 
 DecStep ==
     LET ref == DecAll(Ev.bytes) IN
